@@ -60,12 +60,17 @@ func runLBHealth(x *X) {
 
 	s := x.StartMicro()
 	net := newStubNet(x)
+	if c.Intn(4, "backends-send-early-hints") == 0 {
+		net.interimAll = []int{103} // the final status is what counts, for health and for the counters
+		x.Probe("interim-before-final-status")
+	}
 	for i, bc := range bcs {
 		net.add(bc.Name, x.BackendHost(1, i+1), "")
 	}
 	onErr := func(e *simrt.SchedError) {
 		x.Violate("C03", "C03/"+e.Kind+"{lbhealth}", "%s", e.Error())
 		x.Violate("C12", "C12/"+e.Kind+"{lbhealth}", "%s", e.Error())
+		x.Blocked(e, "lbhealth")
 	}
 	var h *lbHarness
 	var setupErr error
